@@ -764,11 +764,26 @@ def check(sites, table):
     have = {}
     for s in sites:
         have[s.key()] = s
-    for k, s in have.items():
-        if k not in table:
+    # code motion inside one file (a site moved into a helper, a function renamed, an occurrence index shifted) keeps the
+    # expression and its kind: an unclassified site is paired with a vanished entry of the same (file, kind, expression)
+    # and inherits its class; only what cannot be paired is a problem (false-alarm probe g02: pure code motion)
+    new_sites = [k for k in have if k not in table]
+    gone = [k for k in table if k not in have]
+    pool = {}
+    for k in gone:
+        pool.setdefault((k[0], k[2], k[3]), []).append(k)
+    moved = set()
+    for k in sorted(new_sites):
+        cands = pool.get((k[0], k[2], k[3]))
+        if cands:
+            old = cands.pop(0)
+            moved.add(old)
+            table[k] = table[old]          # the moved site inherits the class of the entry it is paired with
+        else:
+            s = have[k]
             problems.append(f"unclassified site serde_arrow/src/{s.file}:{s.line} in `{s.fn}` [{s.kind}] `{s.expr}` #{s.n}")
-    for k in table:
-        if k not in have:
+    for k in gone:
+        if k not in moved:
             problems.append(f"arith_sites.json lists a site that no longer exists: {k[0]} `{k[1]}` [{k[2]}] `{k[3]}` #{k[4]}")
     names = None
     for k, cls in table.items():
